@@ -119,6 +119,28 @@ func New(rt *rapid.T, t *testing.T) *Sim {
 	}
 	s.Spacing = int64(rapid.SampledFrom(cltypes.AuthorizedTickSpacing).Draw(rt, "spacing"))
 	s.Spread = rapid.SampledFrom(cltypes.AuthorizedSpreadFactors).Draw(rt, "spread")
+	// neighbour pools on the same pair, one with a smaller and one with a larger id, each holding one position of an
+	// outsider: per-pool bookkeeping must not see them
+	outsider := chain.Actor(NActors + 5)
+	c.Fund(outsider, sdk.NewCoins(coin(D0, huge), coin(D1, huge), coin("uosmo", big.NewInt(1_000_000_000_000))))
+	neighbour := func(label string) {
+		if !rapid.Bool().Draw(rt, label) {
+			return
+		}
+		m := clmodel.NewMsgCreateConcentratedPool(outsider, D0, D1, 100, cltypes.AuthorizedSpreadFactors[1])
+		r := c.Exec(&m)
+		if !r.OK() {
+			rt.Fatalf("harness: create neighbour CL pool: %v", r.Err)
+		}
+		var resp clmodel.MsgCreateConcentratedPoolResponse
+		_ = r.Unpack(&resp)
+		if r := c.Exec(&cltypes.MsgCreatePosition{PoolId: resp.PoolID, Sender: outsider.String(), LowerTick: -100000, UpperTick: 100000,
+			TokensProvided: sdk.NewCoins(coin(D0, big.NewInt(1_000_000)), coin(D1, big.NewInt(1_000_000))), TokenMinAmount0: osmomath.ZeroInt(), TokenMinAmount1: osmomath.ZeroInt()}); !r.OK() {
+			rt.Fatalf("harness: neighbour position: %v", r.Err)
+		}
+		s.class(label)
+	}
+	neighbour("neighbour-pool-with-smaller-id")
 	msg := clmodel.NewMsgCreateConcentratedPool(chain.Actor(0), D0, D1, uint64(s.Spacing), s.Spread)
 	r := c.Exec(&msg)
 	if !r.OK() {
@@ -127,6 +149,7 @@ func New(rt *rapid.T, t *testing.T) *Sim {
 	var resp clmodel.MsgCreateConcentratedPoolResponse
 	_ = r.Unpack(&resp)
 	s.PoolID = resp.PoolID
+	neighbour("neighbour-pool-with-larger-id")
 	s.class(fmt.Sprintf("spacing=%d", s.Spacing))
 	if s.Spread.IsZero() {
 		s.class("zero-spread")
